@@ -2,8 +2,37 @@
 use crate::job::{Job, JobResult};
 use std::path::{Path, PathBuf};
 
+/// Scratch root. The engine hashes absolute paths (path-keyed caches), so the path
+/// *string* it sees must not depend on where the bytes live: it is always
+/// /verif/work, which is made a symlink to a tmpfs directory when one is available
+/// (tens of thousands of small files are created, copied and removed per check).
+/// Nothing a later command needs is kept there.
 pub fn work_root() -> PathBuf {
-    PathBuf::from(std::env::var("VERIF_WORK").unwrap_or_else(|_| "/verif/work".into()))
+    if let Ok(w) = std::env::var("VERIF_WORK") {
+        return PathBuf::from(w);
+    }
+    let link = PathBuf::from("/verif/work");
+    let shm = PathBuf::from("/dev/shm/verif-work");
+    let is_link = std::fs::symlink_metadata(&link).map(|m| m.file_type().is_symlink()).unwrap_or(false);
+    if is_link {
+        // dangling after a reboot / fresh copy: recreate the target
+        let _ = std::fs::create_dir_all(&shm);
+        if link.is_dir() {
+            return link;
+        }
+        let _ = std::fs::remove_file(&link);
+    }
+    // an empty real directory left by an earlier version is replaced by the link
+    if link.is_dir() && !is_link && std::fs::read_dir(&link).map(|mut d| d.next().is_none()).unwrap_or(false) {
+        let _ = std::fs::remove_dir(&link);
+    }
+    if !link.exists() && std::fs::create_dir_all(&shm).is_ok() && std::fs::write(shm.join(".probe"), b"x").is_ok() {
+        if std::os::unix::fs::symlink(&shm, &link).is_ok() {
+            return link;
+        }
+    }
+    let _ = std::fs::create_dir_all(&link);
+    link
 }
 
 /// Run one lifetime in a fresh child process.
